@@ -25,18 +25,20 @@ theorem kvKeyName_inj {a b : Path} : kvKeyName a = kvKeyName b ↔ a = b := by
 def userDir (p : Path) : Path := if p = [] ∨ p.getLast? = some '/' then p else p ++ ['/']
 
 theorem dirPrefix_eq (p : Path) : dirPrefix p = kvKeyPrefix ++ userDir p := by
-  unfold dirPrefix endsWithSlash kvKeyName userDir
   have hk : kvKeyPrefix.getLast? = some '/' := by decide
-  rw [List.getLast?_append, hk]
+  have hl : (kvKeyName p).getLast? = p.getLast?.or (some '/') := by
+    unfold kvKeyName; rw [List.getLast?_append, hk]
+  unfold dirPrefix endsWithSlash userDir
+  simp only [hl]
   cases hp : p.getLast? with
   | none =>
     have : p = [] := by simpa using hp
-    simp [this]
+    simp [this, kvKeyName]
   | some c =>
     have hne : p ≠ [] := by intro h; simp [h] at hp
     by_cases hc : c = '/'
-    · subst hc; simp
-    · simp [hc, hne, List.append_assoc]
+    · subst hc; simp [kvKeyName]
+    · simp [hc, hne, kvKeyName, List.append_assoc]
 
 theorem takeWhile_seg (seg rest : Path) (hs : '/' ∉ seg) (hr : rest = [] ∨ ∃ r, rest = '/' :: r) :
     (seg ++ rest).takeWhile (· != '/') = seg := by
@@ -69,13 +71,11 @@ theorem childOf_eq (pfx k : Path) :
     have ht : trimPrefix pfx k = k.drop pfx.length := by unfold trimPrefix; simp [hp]
     rw [ht]
     generalize k.drop pfx.length = sub at hk
-    by_cases hc : sub.contains '/' = true
-    · simp [hc]
-    · simp only [hc]
-      have hno : '/' ∉ sub := by simpa using hc
-      have : sub.takeWhile (· != '/') = sub := by
-        have := takeWhile_seg sub [] hno (Or.inl rfl); simpa using this
-      rw [this, ← hk]; rfl
+    by_cases hm : '/' ∈ sub
+    · simp [hm]
+    · have : sub.takeWhile (· != '/') = sub := by
+        have := takeWhile_seg sub [] hm (Or.inl rfl); simpa using this
+      simp only [List.contains_iff_mem, hm, if_false, this, ← hk]
   · simp [hp]
 
 /-! ## non-recursive listing -/
@@ -151,9 +151,10 @@ theorem childOf_iff (p k c : Path) :
       cases h
       refine ⟨_, rfl, h3, ?_⟩
       rcases h2 with rfl | ⟨r, rfl⟩
-      · left; rw [hk, h1]; simp [kvKeyName, List.append_assoc]
-        rw [List.takeWhile_append_of_pos] <;> simp
-        · intro a ha; simp; intro e; exact h3 (e ▸ ha)
+      · left
+        have h1' : sub = sub.takeWhile (· != '/') := by simpa using h1
+        rw [hk]; simp only [kvKeyName, List.append_assoc]
+        exact congrArg (fun x => kvKeyPrefix ++ (userDir p ++ x)) h1'
       · right; rw [hk]; refine ⟨r, ?_⟩
         conv => rhs; rw [h1]
         simp [kvKeyName, List.append_assoc]
@@ -219,7 +220,8 @@ returns the value of the last store to `k` that no later delete removed, and "do
 theorem load_last_store (kv0 : Kv) (h : List Op) (k : Path) :
     (step (runRev kv0 h) (.load k)).2 =
       match lastWrite kv0 h k with | some v => .val v | none => .notExist := by
-  simp only [step, get_runRev]
+  show (match (runRev kv0 h).get (kvKeyName k) with | some v => Out.val v | none => Out.notExist) = _
+  rw [get_runRev]
 
 theorem load_after_store (kv0 : Kv) (h : List Op) (k : Path) (v : Bytes) :
     (step (runRev kv0 (.store k v :: h)) (.load k)).2 = .val v := by
@@ -233,41 +235,36 @@ theorem deleted_not_exists (kv0 : Kv) (h : List Op) (k : Path) :
     (step s (.stat k)).2 = .notExist := by
   simp only [step, get_runRev, lastWrite, if_true]; simp
 
-theorem mem_listSimple (kv : Kv) (pfx k : Path) (hnd : (kv.map (·.1)).Nodup) :
-    k ∈ kv.listSimple pfx ↔ pfx <+: k ∧ ∃ a t, kv.get k = some (a :: t) := by
-  unfold Kv.listSimple Kv.get
+theorem lookup_some_mem (kv : Kv) (k : Path) (v : Option Bytes) (h : kv.lookup k = some v) :
+    k ∈ kv.map (·.1) := by
   induction kv with
-  | nil => simp
+  | nil => simp at h
   | cons e t ih =>
     obtain ⟨ek, ev⟩ := e
-    simp only [List.map_cons, List.nodup_cons] at hnd
-    have ih := ih hnd.2
     by_cases hk : k = ek
-    · subst hk
-      have hnot : k ∉ (t.filter (fun e => pfx.isPrefixOf e.1 && (match e.2 with | some (_ :: _) => true | _ => false))).map (·.1) := by
-        intro hm; apply hnd.1
-        simp only [List.mem_map, List.mem_filter] at hm ⊢
-        obtain ⟨x, ⟨hx, _⟩, rfl⟩ := hm; exact ⟨x, hx, rfl⟩
-      simp only [List.lookup_cons, beq_self_eq_true, List.filter_cons]
-      rcases ev with _ | (_ | ⟨a, l⟩) <;> simp [hnot, List.isPrefixOf_iff_prefix]
+    · simp [hk]
     · have hb : (k == ek) = false := by simpa using hk
-      simp only [List.lookup_cons, hb, List.filter_cons]
-      split
-      · simp only [List.map_cons, List.mem_cons, hk, false_or]; exact ih
-      · exact ih
+      simp only [List.lookup_cons, hb] at h
+      simp [ih h]
 
-theorem put_keys_nodup (kv : Kv) (k : Path) (v : Option Bytes) (h : (kv.map (·.1)).Nodup) :
-    ((kv.put k v).map (·.1)).Nodup := by
-  unfold Kv.put
-  simp only [List.map_cons, List.nodup_cons]
-  refine ⟨?_, ?_⟩
-  · simp [List.mem_map, List.mem_filter]
-  · exact (List.filter_sublist.map _).nodup h
-
-theorem runRev_keys_nodup (h : List Op) : ((runRev [] h).map (·.1)).Nodup := by
-  induction h with
-  | nil => simp [runRev]
-  | cons op h ih => cases op <;> simp only [runRev, step] <;> first | exact put_keys_nodup _ _ _ ih | exact ih
+theorem mem_listSimple (kv : Kv) (pfx k : Path) :
+    k ∈ kv.listSimple pfx ↔ pfx <+: k ∧ ∃ a t, kv.get k = some (a :: t) := by
+  unfold Kv.listSimple
+  simp only [List.mem_filter, Bool.and_eq_true, List.isPrefixOf_iff_prefix]
+  constructor
+  · rintro ⟨_, hp, hn⟩
+    refine ⟨hp, ?_⟩
+    cases hg : kv.get k with
+    | none => simp [hg, nonEmpty] at hn
+    | some v => cases v with
+      | nil => simp [hg, nonEmpty] at hn
+      | cons a t => exact ⟨a, t, rfl⟩
+  · rintro ⟨hp, a, t, hg⟩
+    refine ⟨?_, hp, by simp [hg, nonEmpty]⟩
+    unfold Kv.get at hg
+    cases hl : kv.lookup k with
+    | none => simp [hl] at hg
+    | some v => exact lookup_some_mem kv k v hl
 
 /-- **C49 (listing, end to end).** After any history starting from the empty store, the non-recursive
 listing of `p` has no duplicates and consists exactly of the immediate children of `p` among the keys
@@ -284,7 +281,7 @@ theorem list_after_history (h : List Op) (p c : Path) :
   unfold IsChild
   constructor
   · rintro ⟨seg, rfl, hs, k, hk, hc⟩
-    rw [mem_listSimple _ _ _ (runRev_keys_nodup h)] at hk
+    rw [mem_listSimple _ _ _] at hk
     obtain ⟨_, a, t, hg⟩ := hk
     have hpre : ∃ u, k = kvKeyName u ∧ (u = userDir p ++ seg ∨ (userDir p ++ seg ++ ['/']) <+: u) := by
       rcases hc with rfl | ⟨r, rfl⟩
@@ -295,7 +292,7 @@ theorem list_after_history (h : List Op) (p c : Path) :
     exact ⟨seg, rfl, hs, u, a, t, hg, hu⟩
   · rintro ⟨seg, rfl, hs, u, a, t, hg, hu⟩
     refine ⟨seg, rfl, hs, kvKeyName u, ?_, ?_⟩
-    · rw [mem_listSimple _ _ _ (runRev_keys_nodup h), get_runRev]
+    · rw [mem_listSimple _ _ _, get_runRev]
       refine ⟨?_, a, t, hg⟩
       have hpu : p <+: u := by
         have hd : p <+: userDir p := by unfold userDir; split <;> simp
@@ -316,7 +313,7 @@ theorem list_recursive_exact (h : List Op) (p c : Path) :
   simp only [if_true, List.mem_map]
   constructor
   · rintro ⟨k, hk, rfl⟩
-    rw [mem_listSimple _ _ _ (runRev_keys_nodup h)] at hk
+    rw [mem_listSimple _ _ _] at hk
     obtain ⟨⟨r, rfl⟩, a, t, hg⟩ := hk
     have : kvKeyName p ++ r = kvKeyName (p ++ r) := by simp [kvKeyName]
     rw [this, get_runRev] at hg
@@ -324,7 +321,7 @@ theorem list_recursive_exact (h : List Op) (p c : Path) :
     exact ⟨⟨r, rfl⟩, a, t, hg⟩
   · rintro ⟨⟨r, rfl⟩, a, t, hg⟩
     refine ⟨kvKeyName (p ++ r), ?_, by unfold kvKeyName; rw [trimPrefix_append]⟩
-    rw [mem_listSimple _ _ _ (runRev_keys_nodup h), get_runRev]
+    rw [mem_listSimple _ _ _, get_runRev]
     exact ⟨⟨r, by simp [kvKeyName]⟩, a, t, hg⟩
 
 /-! ## locks -/
